@@ -10,6 +10,10 @@ Lemma transition_not_undeclared c old known ns act :
   transition c old known = Some (ns, act) -> ns <> FUndeclared.
 Proof. destruct c, old, known; cbn; intros H; inversion H; discriminate. Qed.
 
+Lemma transition_out c old known ns act :
+  transition c old known = Some (ns, act) -> out_state old = true -> out_state ns = true.
+Proof. destruct c, old, known; cbn; intros H; inversion H; auto; discriminate. Qed.
+
 (* every path has a row and a whitelisted transition *)
 Definition hashes_ok (c : cause) (hs : list (str * option N)) (s : st) : bool :=
   forallb (fun ph => match find_file (fst ph) s with
@@ -24,7 +28,8 @@ Context {hh : bool}.
 (* ------------------------------------------------------------------------------------------ *)
 Lemma plan_fold_spec strict c s hs :
   (strict = true -> hashes_ok c hs s = true) -> forall acc,
-  (forall x, In x acc -> p_state x <> FUndeclared) ->
+  (forall x, In x acc -> p_state x <> FUndeclared /\
+      (forall r0, find_file (p_path x) s = Some r0 -> out_state (fstt r0) = true -> out_state (p_state x) = true)) ->
   wpg strict (foldM (fun acc ph =>
                 match find_file (fst ph) s with
                 | None => Internal 118
@@ -34,7 +39,8 @@ Lemma plan_fold_spec strict c s hs :
                   | Some (ns, act) => Ok (acc ++ [mkP (fst ph) (snd ph) ns act])
                   end
                 end) hs acc)
-      (fun plan => forall x, In x plan -> p_state x <> FUndeclared).
+      (fun plan => forall x, In x plan -> p_state x <> FUndeclared /\
+         (forall r0, find_file (p_path x) s = Some r0 -> out_state (fstt r0) = true -> out_state (p_state x) = true)).
 Proof.
   induction hs as [|ph hs IH]; intros Hst acc Hacc; cbn [foldM]; [exact Hacc|].
   assert (Hst' : strict = true -> hashes_ok c hs s = true).
@@ -45,7 +51,8 @@ Proof.
   destruct (transition c (fstt r) (is_some (snd ph))) as [[ns act]|] eqn:Ht.
   2:{ destruct strict; [|exact I]. cbn. specialize (Hst eq_refl). cbn in Hst. rewrite Hr, Ht in Hst. discriminate. }
   cbn [wpg]. apply IH; [exact Hst'|]. intros x Hx. apply in_app_or in Hx. destruct Hx as [Hx|[<-|[]]]; [auto|].
-  cbn. eapply transition_not_undeclared. exact Ht.
+  cbn. split; [eapply transition_not_undeclared; exact Ht|].
+  intros r0 Hr0 Ho. rewrite Hr in Hr0. inversion Hr0; subst r0. eapply transition_out; eassumption.
 Qed.
 
 Lemma step_creator_exists l c s : Inv hh s -> step_creator_of_file l s = Some c -> find_step c s <> None.
@@ -110,8 +117,11 @@ Proof.
   eapply wpg_weaken.
   { apply (wpg_foldM strict _ (fun s' => Inv hh s' /\ SO s s')); [|split; [exact HI | apply SO_refl]].
     intros s1 x Hx [I1 S1]. eapply wpg_weaken.
-    - apply (@set_fstate_hash_spec hh); [exact I1 | apply Hplan; exact Hx |].
-      intros _ _. destruct (p_hash x); discriminate.
+    - apply (@set_fstate_hash_spec hh); [exact I1 | apply Hplan; exact Hx | |].
+      + intros d sl Hd Hs Hk n c0 Hn Hc0. rewrite (so_deps _ _ S1) in Hd. rewrite (so_nodes _ _ S1) in Hn.
+        destruct (inv_oe _ HI d sl (p_path x) Hd Hs Hk n c0 Hn Hc0) as [_ [r0 [Hr0 Ho]]].
+        apply (proj2 (Hplan x Hx) r0); [exact Hr0 | exact Ho].
+      + intros _ _. destruct (p_hash x); discriminate.
     - intros s2 [I2 [S2 _]]. split; [exact I2 | eapply SO_trans; eassumption]. }
   intros s1 [I1 S1]. cbn zeta. apply wpg_bind.
   eapply wpg_weaken; [apply (fold_mark_post strict (fun s l => handle_updated_file l s)); [|exact I1]|].
@@ -232,17 +242,17 @@ Lemma SO_find_step l s s' : SO s s' -> find_step l s <> None -> find_step l s' <
 Proof. intros HSO H. apply find_step_SL. rewrite (so_sl _ _ HSO). apply find_step_SL. exact H. Qed.
 
 Lemma set_fstate_fold_spec strict new (after : str -> st -> res st) ls s :
-  new <> FUndeclared ->
+  new <> FUndeclared -> out_state new = true ->
   (strict = true -> needs_hash new = true ->
      forall s1 l, SO s s1 -> In l ls -> forall r, find_file l s1 = Some r -> fh r <> None) ->
   (forall l s1, Inv hh s1 -> wpg strict (after l s1) (fun s2 => Inv hh s2 /\ SO s1 s2)) ->
   Inv hh s ->
   wpg strict (foldM (fun s l => do s' <- set_fstate l new s; after l s') ls s) (fun s' => Inv hh s' /\ SO s s').
 Proof.
-  intros Hnew Hhash Hafter HI.
+  intros Hnew Hout Hhash Hafter HI.
   apply (wpg_foldM strict _ (fun s' => Inv hh s' /\ SO s s')); [|split; [exact HI | apply SO_refl]].
   intros s1 l Hl [I1 S1]. apply wpg_bind. unfold set_fstate. eapply wpg_weaken.
-  - apply (@set_fstate_hash_spec hh); [exact I1 | exact Hnew |]. intros Hs Hn r Hr.
+  - apply (@set_fstate_hash_spec hh); [exact I1 | exact Hnew | intros; exact Hout |]. intros Hs Hn r Hr.
     eapply Hhash; eassumption.
   - intros s2 [I2 [S2 _]]. eapply wpg_weaken; [apply Hafter; exact I2|].
     intros s3 [I3 S3]. split; [exact I3|]. eapply SO_trans; [exact S1|]. eapply SO_trans; eassumption.
@@ -258,7 +268,7 @@ Proof.
   - (* success *)
     apply wpg_bind. eapply wpg_weaken; [apply (@set_sstate_spec hh); [exact HI | intros H; discriminate]|].
     intros s1 [I1 [S1 _]]. apply wpg_bind. eapply wpg_weaken.
-    { apply (set_fstate_fold_spec false FBuilt (fun l s' => mark_consumers_pending l s')); [discriminate | intros H; discriminate | | exact I1].
+    { apply (set_fstate_fold_spec false FBuilt (fun l s' => mark_consumers_pending l s')); [discriminate | reflexivity | intros H; discriminate | | exact I1].
       intros l s0 H0. eapply wpg_weaken; [apply (@mark_consumers_pending_spec hh); exact H0|].
       intros s' [A [B _]]. auto. }
     intros s2 [I2 S2]. cbn [wpg].
@@ -267,7 +277,7 @@ Proof.
     apply wpg_bind. eapply wpg_weaken.
     { rewrite (foldM_ext _ (fun s l => do s' <- set_fstate l FOutdated s; (fun _ s => Ok s) l s')).
       2:{ intros s0 a. rewrite bind_ok_r. reflexivity. }
-      apply (set_fstate_fold_spec false FOutdated (fun _ s' => Ok s')); [discriminate | intros H; discriminate | | exact HI].
+      apply (set_fstate_fold_spec false FOutdated (fun _ s' => Ok s')); [discriminate | reflexivity | intros H; discriminate | | exact HI].
       intros l s0 H0. cbn. split; [exact H0 | apply SO_refl]. }
     intros s1 [I1 S1]. apply wpg_bind.
     assert (Hstate : wpg false
